@@ -496,8 +496,19 @@ pub fn calls(out: &mut Out, rng: &mut Rng, count: usize) {
                         let n = *rng.pick(&[127usize, 130, 200]);    // with the 2-3 header bytes: >= 127 bytes of content
                         let kid = if e.ty == TagDataType::Binary { DynTag { id: e.id, v: DynVal::B(rng.bytes(n)) } } else { DynTag { id: e.id, v: DynVal::S("c".repeat(n)) } };
                         let st = WOp::Tag { tag: start(m.id), width: 1, unknown: false };
-                        for o in [st.clone(), t(kid.clone())] { with.push(o.clone()); marks.push(false); without.push(o); }
-                        with.push(t(end(m.id))); marks.push(true);
+                        // variant: a master inside it is still open when flush() is tried: flush() cannot end the outer master
+                        // (its size does not fit) and must then not have ended the inner one either
+                        let inner: Vec<&dynspec::Entry> = gen::allowed_children(&s, &ch).into_iter().filter(|e| e.ty == TagDataType::Master).collect();
+                        if !inner.is_empty() && rng.chance(1, 2) {
+                            let im = *rng.pick(&inner);
+                            for o in [st.clone(), t(kid.clone()), t(start(im.id))] { with.push(o.clone()); marks.push(false); without.push(o); }
+                            with.push(WOp::Flush); marks.push(true);
+                            let e = t(end(im.id)); with.push(e.clone()); marks.push(false); without.push(e);
+                            with.push(t(end(m.id))); marks.push(true);
+                        } else {
+                            for o in [st.clone(), t(kid.clone())] { with.push(o.clone()); marks.push(false); without.push(o); }
+                            with.push(t(end(m.id))); marks.push(true);
+                        }
                         composite_done = true;
                     }
                 }
